@@ -140,10 +140,27 @@ Example C04_topk_example :
   topk_step Z Z.ltb (fun _ => false) 0 [0; 1; 0; 1] 2 [(0, 5%Z); (1, 9%Z)] = [].
 Proof. repeat split; vm_compute; reflexivity. Qed.
 
+(* avg and stddev/stdvar: the accumulators (generic in the number type, RangeArith.v;
+   the float instance is compared with scalar_table.go on every run) compute,
+   on the rationals where nothing is rounded, the mean and the population
+   variance of the group's values. *)
+From Coq Require QArith.
+From Verif Require RangeArith RangeArithProofs.
+
+Theorem C04_avg_exact : forall vs, vs <> [] ->
+  QArith_base.Qeq (RangeArith.gacc_avg QArith_base.Q RangeArithProofs.qops vs) (RangeArithProofs.qmean vs).
+Proof. exact RangeArithProofs.gacc_avg_exact. Qed.
+Print Assumptions C04_avg_exact.
+
+Theorem C04_stdvar_exact : forall vs, vs <> [] ->
+  QArith_base.Qeq (RangeArith.gacc_variance QArith_base.Q RangeArithProofs.qops vs) (RangeArithProofs.qvar vs).
+Proof. exact RangeArithProofs.gacc_variance_exact. Qed.
+Print Assumptions C04_stdvar_exact.
+
 (* PARTIAL. Proved for every accumulator (sum, min, max, avg, count, group,
    stddev, stdvar, quantile are instances of [empty]/[add]): grouping, per-step
    membership, reset locality, parameter taken per step; for topk/bottomk the
    selection per group. Not proved: equality of each accumulator's
-   floating-point value with the reference engine's (decided by the reference
-   oracle); the strict-weak-order hypotheses of C04_topk_group for IEEE doubles
+   rounded floating-point value with the reference engine's (decided by the
+   reference oracle; without rounding see C04_avg_exact, C04_stdvar_exact); the strict-weak-order hypotheses of C04_topk_group for IEEE doubles
    are assumed of the hardware comparison, not derived. *)
